@@ -175,20 +175,25 @@ func (p *Processor) OpenCDR(
 			PDUSessionChargingID: cdrType.ChargingID{
 				Value: int64(pduSessionInfo.ChargingId),
 			},
-			PDUSessionId: cdrType.PDUSessionId{
-				Value: int64(pduSessionInfo.PduSessionInformation.PduSessionID),
-			},
-			NetworkSliceInstanceID: &cdrType.SingleNSSAI{
-				SST: cdrType.SliceServiceType{
-					Value: int64(pduSessionInfo.PduSessionInformation.NetworkSlicingInfo.SNSSAI.Sst),
-				},
-				SD: &cdrType.SliceDifferentiator{
-					Value: []byte(pduSessionInfo.PduSessionInformation.NetworkSlicingInfo.SNSSAI.Sd),
-				},
-			},
-			DataNetworkNameIdentifier: &cdrType.DataNetworkNameIdentifier{
-				Value: asn.IA5String(pduSessionInfo.PduSessionInformation.DnnId),
-			},
+		}
+		// pduSessionInformation and the slice information inside it may be absent
+		if pduInfo := pduSessionInfo.PduSessionInformation; pduInfo != nil {
+			chfCdr.PDUSessionChargingInformation.PDUSessionId = cdrType.PDUSessionId{
+				Value: int64(pduInfo.PduSessionID),
+			}
+			if pduInfo.NetworkSlicingInfo != nil && pduInfo.NetworkSlicingInfo.SNSSAI != nil {
+				chfCdr.PDUSessionChargingInformation.NetworkSliceInstanceID = &cdrType.SingleNSSAI{
+					SST: cdrType.SliceServiceType{
+						Value: int64(pduInfo.NetworkSlicingInfo.SNSSAI.Sst),
+					},
+					SD: &cdrType.SliceDifferentiator{
+						Value: []byte(pduInfo.NetworkSlicingInfo.SNSSAI.Sd),
+					},
+				}
+			}
+			chfCdr.PDUSessionChargingInformation.DataNetworkNameIdentifier = &cdrType.DataNetworkNameIdentifier{
+				Value: asn.IA5String(pduInfo.DnnId),
+			}
 		}
 	}
 
